@@ -220,6 +220,8 @@ package machine
 
 //@ assumed func (re *regexp.Regexp) Match(b []byte) (r bool)
 //@   ensures r == reMatch(re, bytestr(b))
+//@   ensures re == accounts.Regexp ==> r == validAddr(bytestr(b))
+//@   ensures re == assets.Regexp ==> r == validAsset(bytestr(b))
 
 //@ assumed func (re *regexp.Regexp) FindAllStringSubmatch(s string, n int) (r [][]string)
 //@   ensures (reMatch(re, s) && n != 0) ==> len(r) >= 1
